@@ -3,9 +3,13 @@
 patch="$1"; shift
 cd /repo || exit 2
 if ! git diff --quiet; then echo "/repo has uncommitted changes"; exit 2; fi
+case "$patch" in /*) ;; *) patch="$OLDPWD/$patch";; esac
 git apply "$patch" || { echo "patch does not apply"; exit 2; }
+# evidence written while a changed /repo is in place must never end up committed: keep the real files aside
+bak=$(mktemp -d /tmp/evidence-bak.XXXXXX); cp -a /verif/evidence/. "$bak"/
 for p in "$@"; do
   out=$(cd /verif && VERIF_EVIDENCE_SKIP=1 ./check "$p" quick 2>&1); code=$?
   echo "== $p exit=$code"; echo "$out" | grep -E "^(violation|VIOLATION|KNOWN|HARNESS|check )" | cut -c1-300
 done
-git checkout -- . 
+git checkout -- .
+rm -rf /verif/evidence; mkdir -p /verif/evidence; cp -a "$bak"/. /verif/evidence/; rm -rf "$bak" 
